@@ -11,7 +11,7 @@ class Reached(Exception):
 class Harness:
     def __init__(self, name, fn, quick=None, thorough=None, timeout=(120, 900), per_path=60.0,
                  float_model='ieee', goals=(), tiers=('quick', 'thorough'), max_paths=10 ** 7,
-                 twin=True, symbolic=True, note='', smt_timeout=None):
+                 twin=True, symbolic=True, note='', smt_timeout=None, replay_all=False):
         self.name = name
         self.fn = fn
         self.bounds = {'quick': dict(quick or {}), 'thorough': dict(thorough if thorough is not None else (quick or {}))}
@@ -26,6 +26,7 @@ class Harness:
         self.twin = twin
         self.symbolic = symbolic      # False: the solver forks over a value that the code concretises (labelled in evidence)
         self.note = note
+        self.replay_all = replay_all      # every passed path is also run concretely with its model values (differential guard)
         self.smt_timeout = smt_timeout   # first-try timeout of CrossHair's incremental solver before the portfolio
 
     def body(self, tier):
